@@ -93,9 +93,18 @@ def check(out: Outcome, p: dict, xs: list, runners: list, label: str = "") -> No
     d = r.det
     hist = []
     shrunk = 0
-    mag = max([1.0] + [abs(v) for v in xs])
+    mag = max([1.0] + [abs(v) for v in xs if v is not None])
     ab = corr.AdwinBudget(fp["m"])
     for t, x in enumerate(xs, 1):
+        if x is None:
+            # `None` in a stream is a reset(): the window restarts - every clause below is then about the values SINCE the reset (a history, as the property's quantifier says)
+            r.reset()
+            hist, ab = [], corr.AdwinBudget(fp["m"])
+            out.count("resets_inside_streams")
+            if int(d.width) != 0 or bool(d.drift):
+                out.violation(f"ADWIN: after reset() width={int(d.width)} drift={bool(d.drift)}", {"class": "ADWIN", "params": p, "stream": xs[:t], "step": t})
+                break
+            continue
         before = int(d.width)
         pre = copy.deepcopy(d)
         r.update(x)
@@ -173,7 +182,7 @@ def check(out: Outcome, p: dict, xs: list, runners: list, label: str = "") -> No
             out.violation(f"ADWIN: after the check at step {t} an examined split still exceeds eps_cut", rep)
             break
     runners.append(r)
-    out.case({"class": "ADWIN", "params": p, "n": len(xs), "h": hash(tuple(xs)) & 0xFFFFFF}, nontrivial=shrunk > 0)
+    out.case({"class": "ADWIN", "params": p, "n": len(xs), "h": hash(tuple(xs)) & 0xFFFFFF, "resets": sum(1 for v in xs if v is None)}, nontrivial=shrunk > 0)
     out.count("window_cuts_observed", shrunk)
 
 
@@ -278,6 +287,20 @@ def run(out: Outcome) -> None:
         for seg in range(rng.randint(3, 7)):
             level = rng.choice([0.0, 4.0, 9.0, 20.0])
             xs += [abs(rng.gauss(level, 0.3)) for _ in range(rng.randint(10, 60))]
+        check(out, p, xs, runners)
+    # histories with reset(): update ... reset() ... update, reset at a random point, right after a cut, and twice; the window, its buckets and the cuts after the
+    # reset are those of the values since the reset
+    for i in range(24 if thorough else 10):
+        p = gen.rand_params(rng, "ADWIN") if i % 2 else {"clock": rng.choice([1, 2, 4]), "delta": rng.choice([0.3, 0.05, 0.002]), "m": rng.choice([1, 2, 5]),
+                                                       "min_window_size": rng.choice([1, 2, 5]), "min_num_instances": rng.choice([3, 10, 20])}
+        xs, level = [], rng.choice([0.0, 1.0, 5.0])
+        for seg in range(rng.randint(2, 5)):
+            level = abs(level + rng.choice([-3, 2, 6, 15]))
+            xs += [abs(rng.gauss(level, rng.choice([0.05, 0.5]))) for _ in range(rng.randint(6, 90))]
+            if rng.random() < 0.7:
+                xs.append(None)
+        k = rng.randint(1, max(1, len(xs) - 1))
+        xs = xs[:k] + [None] + xs[k:] + [abs(rng.gauss(level + 9, 0.3)) for _ in range(rng.randint(20, 60))]
         check(out, p, xs, runners)
     if "KF-C05-1" in out.findings:   # witness of the recorded finding
         import json
